@@ -28,6 +28,9 @@ CONSTANTS
   MaxDepth,      \* 0 = unbounded (closed BFS); > 0 bounds behaviours (simulation) and prints them at that depth
   Ramp,          \* simulation only: fill/drain phases that push fan-outs through every threshold
   StartFull,     \* simulation only: behaviours start from the tree holding every insertable key (drain first)
+  ProtectEnds,   \* simulation only: TRUE = smallest / largest key inserted first and deleted last; FALSE = extremes deleted eagerly
+  FillCap,       \* simulation only: a fill phase ends at this many keys (0 = all insertable keys): a node that gets FULL but never grows
+  DrainFloor,    \* simulation only: a drain phase ends at this many keys, so the drained node lives on into the next fill
   CovOn,         \* count how often each tagged code path of the model is evaluated (vacuity report; one worker)
   \* deviations; the defaults describe the current (repaired) tree
   SizeOnSplit,   \* TRUE: compressed-path split counts the new key (D3 fixed)
@@ -447,10 +450,11 @@ Emit(op) ==
 
 Bounded == MaxDepth = 0 \/ Len(h) < MaxDepth
 
+FillTop == IF FillCap = 0 THEN Cardinality(Insertable) ELSE Min2(FillCap, Cardinality(Insertable))
 NextPhase(sz) ==
   IF ~Ramp THEN phase
-  ELSE IF phase = "fill" /\ sz >= Cardinality(Insertable) THEN "drain"
-  ELSE IF phase = "drain" /\ sz = 0 THEN "fill"
+  ELSE IF phase = "fill" /\ sz >= FillTop THEN "drain"
+  ELSE IF phase = "drain" /\ sz <= DrainFloor THEN "fill"
   ELSE phase
 
 (* ramp (simulation only): insert absent keys while filling, delete present ones   *)
@@ -474,11 +478,12 @@ Pick(S) == IF S = {} THEN {} ELSE {RandomElement(S)}
 Extremes(S) == IF S = {} THEN {} ELSE {RandomElement({RandomElement(S), MaxOf(S), MinOf(S)})}
 
 InsCands ==
-  CASE phase = "fill" -> IF AbsentKeys \cap Ends # {} THEN AbsentKeys \cap Ends ELSE Pick(AbsentKeys)
-    [] ChurnDown -> Extremes(AbsentKeys)
+  CASE phase = "fill" -> IF ProtectEnds /\ AbsentKeys \cap Ends # {} THEN AbsentKeys \cap Ends ELSE Pick(AbsentKeys)
+    [] ChurnDown /\ size < FillTop -> Extremes(AbsentKeys)
     [] OTHER -> {}
 DelCands ==
-  CASE phase = "drain" -> IF PresentKeys \ Ends # {} THEN Pick(PresentKeys \ Ends) ELSE PresentKeys
+  CASE phase = "drain" -> IF ~ProtectEnds THEN Extremes(PresentKeys)
+                          ELSE IF PresentKeys \ Ends # {} THEN Pick(PresentKeys \ Ends) ELSE PresentKeys
     [] ChurnUp -> Extremes(PresentKeys)
     [] OTHER -> {}
 
